@@ -1093,49 +1093,66 @@ def e2e_assess(obs, a):
 
 
 META = {
-    'level_text': 'Three models of the repaired SecopClient, theorems for all reachable states (any number of callers, requests, '
+    'level_text': 'Four models of the repaired SecopClient, theorems for all reachable states (any number of callers, requests, '
                   'lines, any interleaving, disconnects at any point).  (1) matching LTS, one action per shared access of caller, '
                   'tx, rx and disconnecting threads: reply_matches_partial (known actions), no_double_delivery, no_parking, '
-                  'disconnect_releases_all (a lone disconnect can run to its end and releases every queued/filed/parked request), '
-                  'table facts by decide over the generated REQUEST2REPLY.  (2) timed layer (clock, put/wait deadlines, bounded '
-                  'txq): wait_bounded (every caller returns by t_put + 3 s + 10 s; fairness assumed only for the callers\' own '
-                  'timers).  (3) shutdown protocol (program counters of tx, rx and any number of user threads in disconnect(), '
-                  '_txthread/_rxthread, markers, joins): no_join_cycle, shutdown_terminates (deadlock-freedom after any shutdown '
-                  'request: user, peer, failing send, or several).  Counter-traces: reply_matches_fails (F21, recorded), '
-                  'reply_fresh_fails, no_parking_unlocked_fails (the client before the repair).  Model (1) is replayed against '
-                  'every run of the real client under a deterministic scheduler; the Lean monitors judge every run.',
+                  'no_lost_request (every queued request is still in the machinery or its caller is answered / released / timed out; '
+                  'the keys of active_requests are pairwise different), disconnect_releases_all and '
+                  'disconnect_leaves_nobody_waiting (a lone disconnect can run to its end, releases every queued/filed/parked '
+                  'request and afterwards every request ever queued is accounted for), table facts by decide over the generated '
+                  'REQUEST2REPLY.  (2) timed layer (clock, put/wait deadlines, bounded txq): wait_bounded (every caller returns by '
+                  't_put + 3 s + 10 s; fairness assumed only for the callers\' own timers).  (3) shutdown protocol (program counters '
+                  'of tx, rx and any number of user threads in disconnect(), _txthread/_rxthread, markers, joins): no_join_cycle, '
+                  'shutdown_terminates (deadlock-freedom after any shutdown request: user, peer, failing send, or several).  '
+                  '(4) connection object (one TCP endpoint: peer lines / FIN / RST, client readline / send / shutdown / disconnect): '
+                  'conn_contract (shutdown and disconnect never raise, readline raises nothing but ConnectionClosed and does so '
+                  'on a dead connection, only lines the peer sent are returned).  Counter-traces: reply_matches_fails (F21, '
+                  'recorded), reply_fresh_fails, no_parking_unlocked_fails (the client before the repair).  Models (1) and (3) are '
+                  'replayed against every run of the real client under a deterministic scheduler, model (4) against real AsynTcp '
+                  'objects on loopback sockets and against the scripted FakeConn; the Lean monitors judge every run.',
     'level_note': 'Trusted: Lean kernel + propext/Classical.choice/Quot.sound; queue.Queue / Event / RLock / join semantics are '
                   'those of vlib.sched (modelled, not verified); sections under the request lock are atomic in the model; the '
-                  'conversion of the effect log to labels (harness) and the JSON glue.  Models (2) and (3) are tied to the source by '
-                  'reading (anchored comments) and by the generated constants, not by replay; the reconnect thread / connect() are '
-                  'outside all three models and are covered by schedule exploration only.',
+                  'conversion of the effect log to labels (harness) and the JSON glue.  Model (2) is tied to the source by '
+                  'reading (anchored comments) and by the generated constants, not by replay; connect(), the reconnect threads, '
+                  'the cancel event and the start gate of the workers are outside all models and are covered by schedule '
+                  'exploration (catalogue scenarios with a node that accepts connections again, systematic + long-preemption '
+                  'schedules) and by the monitors ShutdownClean / ShutdownFinal only.  Model (4) is tied to AsynTcp on the '
+                  'loopback interface of this kernel; AsynSerial is not covered.',
     'trusted': [
         'vlib.sched primitives behave like threading/queue (one thread runs at a time, yield before every primitive)',
         'code executed under SecopClient._request_lock is atomic with respect to the other sections under that lock',
         'the effect-log -> label conversion in harness/props/c11.py (checked by the replay: every label must be enabled)',
         'fewer than 30 requests are queued or parked at any time in the untimed model (the timed layer models the bound)',
         'timed layer: a caller whose put/wait time-out expired takes its step before the clock moves on (tick is not enabled past a blocked caller\'s deadline)',
+        'connection model: loopback TCP of the test machine stands for TCP (a peer action is given 30 ms to reach the client; the outcome sets are loose where the kernel is free)',
+        'end-to-end stream on real sockets: "promptly" = within 3 s of real time',
     ],
     'modelled_not_verified': [
         'queue.Queue, threading.Event, threading.RLock, Thread.join',
-        'AsynConn (scripted FakeConn: readline/send/shutdown/disconnect with the error behaviour of a TCP socket)',
+        'AsynTcp (Client/Conn.lean; replayed on loopback sockets) and its stand-in FakeConn (replayed on the same model; its '
+        'silent-loss mode send_error=false is an additional adversary outside that model)',
         'decode_msg / encode_msg_frame, the cache update of update-class messages, callbacks',
-        'connect() / _reconnect / the cancel event of the reconnect thread (exercised by the harness, not part of any model)',
+        'connect() / _reconnect / the cancel event / the start gate of the workers (exercised by the harness, not part of any model)',
         'timed layer: transcribed from the source, not replayed against runs',
     ],
     'assumptions': ['request identifiers are not "." (the rx thread maps "." to None)',
                     'replies carry no request id: a line that matches syntactically and arrives while the request is filed is its '
-                    'answer (reply_fresh_fails shows the stronger reading is unimplementable)'],
+                    'answer (reply_fresh_fails shows the stronger reading is unimplementable)',
+                    'a caller whose request is queued only after the client has connected anew is judged by the time bound only '
+                    '(the matching model is of one connection)'],
 }
 
 
 def run(ctx):
     res = Result()
-    res.rule = ('a case = 2..4 concurrent requests (equal/distinct keys, known/unknown actions, start delays) x scripted peer '
-                '(reply / error reply / interleaved updates / no answer / late answer / duplicate answer / drop) x optional '
-                'concurrent user disconnect x one schedule; non-trivial = the run has a parked request, or a time-out, or a '
-                'disconnect/drop while a request is pending, or at least two different outcome kinds; distinct = distinct '
-                'label sequences')
+    res.rule = ('a case = 0..4 concurrent requests (equal/distinct keys, known/unknown actions, start delays) x scripted peer '
+                '(reply / error reply / interleaved updates / no answer / late answer / duplicate answer / drop / accepts or '
+                'refuses further connections) x optional concurrent user disconnect x optional activated client x one schedule '
+                '(systematic with bounded preemptions, random, or one long preemption); non-trivial = the run has a parked '
+                'request, or a time-out, or a disconnect/drop while a request is pending, or at least two different outcome '
+                'kinds; distinct = distinct label sequences.  Connection stream: a script of peer actions and client calls on a '
+                'real AsynTcp / on FakeConn; non-trivial = the peer ended the connection and the client called something.  '
+                'End-to-end stream: one pending request on real sockets x how the connection is lost')
     rng = ctx.rng
     big = ctx.tier == 'thorough' or ctx.escalated
     maxpre = 3 if big else 2
